@@ -112,7 +112,8 @@ def explore(tier, seed, res=None, replay=None):
         cols = r.sample(NUM, r.randrange(0, 4))
         if not pointwise and r.random() < 0.5:
             cols += r.sample(CAT + ["unused2"], r.randrange(1, 3))
-        data = punch(r, df, cols) if cols else df
+        data = punch(r, df.reset_index(drop=True), cols) if cols else df
+        data = designs.scramble_index(r, data)       # incl. non-unique row labels
         jobs.append((formula, path, data, pointwise, cols))
     rows_req = [{"op": "c09_rows", "formula": f, "frame": designs.frame_json(d), "action": "drop"}
                 for f, _, d, _, _ in jobs]
